@@ -249,6 +249,12 @@ func runCloseEnumeration(c *Ctx, r *Rep) {
 			if call, ok := m.(*ast.CallExpr); ok && strings.HasSuffix(exprStr(call.Fun), "OnContextClosed") {
 				calls = true
 			}
+			// the callback read into a local first and called through it
+			if se, ok := m.(*ast.SelectorExpr); ok && se.Sel.Name == "OnContextClosed" {
+				if v, ok := p.TypesInfo.Uses[se.Sel].(*types.Var); ok && v.IsField() {
+					calls = true
+				}
+			}
 			return true
 		})
 		if !calls {
